@@ -90,6 +90,7 @@ type c16Env struct {
 	accLine string
 	history []string // op lines of the current episode (replay of a failure)
 	propsBy int      // account holding PermChangeTxFee
+	useLong bool     // next episode: account 4 has a 32-byte address extending account 1's
 }
 
 func c16UniqueViolations(s *c16Snap) map[string]bool {
@@ -284,6 +285,16 @@ func (e *c16Env) newEpisode(nFresh int) {
 	e.sms = stakingkeeper.NewMsgServerImpl(w.app.CustomStakingKeeper, e.k)
 	e.rms = recoverykeeper.NewMsgServerImpl(w.app.RecoveryKeeper)
 	e.addrs = append([]sdk.AccAddress{}, w.addrs...)
+	if e.useLong {
+		// account 4 gets a 32-byte address whose first 20 bytes are account 1's address (addresses of different lengths are
+		// legal; module and contract-style accounts have them): per-address store prefixes must keep the two apart
+		long := sdk.AccAddress(append(append([]byte{}, e.addrs[1]...), []byte("-extended-12")...))
+		if err := w.app.BankKeeper.SendCoins(e.ctx, e.addrs[4], long, w.app.BankKeeper.GetAllBalances(e.ctx, e.addrs[4])); err != nil {
+			panic(err)
+		}
+		e.addrs[4] = long
+		r.Count("episode:account-4-extends-account-1")
+	}
 	for i := 0; i < nFresh; i++ {
 		e.addrs = append(e.addrs, sdk.AccAddress(detKey(100+i).PubKey().Address()))
 	}
@@ -1234,7 +1245,9 @@ func runC16(r *Rec) {
 	}
 	for ep := 0; ep < episodes; ep++ {
 		r.Mark(fmt.Sprintf("episode %d", ep))
+		e.useLong = ep%2 == 1
 		e.newEpisode(3)
+		e.useLong = false
 		nLive := 5
 		e.grant("props", 0)
 		for i := 0; i < 5; i++ {
